@@ -50,6 +50,9 @@ var pageReaderCallees = map[string]bool{
 	"readDataPageV1": true, "readDataPageV2": true, "readDictionaryPage": true, "readEncryptedPage": true,
 }
 
+// the value / row readers through which the same error travels further up (second table)
+var rowReaderCallees = map[string]bool{"ReadValues": true, "ReadRows": true, "readRows": true}
+
 type prStep struct {
 	guard   []string
 	outcome string
@@ -66,9 +69,10 @@ type prSite struct {
 }
 
 type prCtx struct {
-	r       *Repo
-	errVar  string
-	pageVar string
+	r        *Repo
+	errVar   string
+	pageVar  string
+	countVar string // value/row readers: the count result (atoms n==0, n!=0, n>0)
 }
 
 func rpnAnd(a, b []string) []string {
@@ -104,6 +108,11 @@ func (c *prCtx) toRPN(e ast.Expr) []string {
 			return append(append(c.toRPN(x.X), c.toRPN(x.Y)...), "and")
 		case token.LOR:
 			return append(append(c.toRPN(x.X), c.toRPN(x.Y)...), "or")
+		case token.GTR, token.LSS:
+			isZero := func(e ast.Expr) bool { b, ok := e.(*ast.BasicLit); return ok && b.Value == "0" }
+			if c.countVar != "" && ((x.Op == token.GTR && isIdent(x.X, c.countVar) && isZero(x.Y)) || (x.Op == token.LSS && isZero(x.X) && isIdent(x.Y, c.countVar))) {
+				return []string{"n>0"}
+			}
 		case token.EQL, token.NEQ:
 			op := "=="
 			if x.Op == token.NEQ {
@@ -113,7 +122,12 @@ func (c *prCtx) toRPN(e ast.Expr) []string {
 			if isIdent(r, c.errVar) || (c.pageVar != "" && isIdent(r, c.pageVar)) {
 				l, r = r, l
 			}
+			isZero := func(e ast.Expr) bool { b, ok := e.(*ast.BasicLit); return ok && b.Value == "0" }
 			switch {
+			case c.countVar != "" && isIdent(l, c.countVar) && isZero(r):
+				return []string{"n" + op + "0"}
+			case c.countVar != "" && isIdent(r, c.countVar) && isZero(l):
+				return []string{"n" + op + "0"}
 			case c.errVar != "" && isIdent(l, c.errVar) && isIdent(r, "nil"):
 				return []string{"err" + op + "nil"}
 			case c.errVar != "" && isIdent(l, c.errVar) && isSel(r, "io", "EOF"):
@@ -323,7 +337,60 @@ func pageReaders(r *Repo, s *Section) error {
 	}
 	s.Comment("every call to a page reader in the root package: (function, callee, form, decision list over the\nerror/page variables after the call: (guard in RPN, outcome)) — see tools/factgen/fam_pagereaders.go")
 	s.Def("pageReaderCalls", "List (String × String × String × List (List String × String))", List(rows))
+
+	// second table: the callers of value / row readers (ReadValues, ReadRows, readRows)
+	prCallees = rowReaderCallees
+	defer func() { prCallees = pageReaderCallees }()
+	var sites2 []prSite
+	for _, p := range paths {
+		base := filepath.Base(p)
+		if strings.HasSuffix(base, "_test.go") || strings.HasPrefix(base, "export_verif") || strings.HasSuffix(base, "_verif.go") {
+			continue
+		}
+		src, err := os.ReadFile(p)
+		if err != nil {
+			return err
+		}
+		if !strings.Contains(string(src), "ReadValues(") && !strings.Contains(string(src), "ReadRows(") && !strings.Contains(string(src), "readRows(") {
+			continue
+		}
+		file, err := r.File(base)
+		if err != nil {
+			return err
+		}
+		for _, d := range file.Decls {
+			if fn, ok := d.(*ast.FuncDecl); ok && fn.Body != nil {
+				sites2 = append(sites2, prSitesOf(r, base, fn)...)
+			}
+		}
+	}
+	sort.SliceStable(sites2, func(i, j int) bool {
+		if sites2[i].fn != sites2[j].fn {
+			return sites2[i].fn < sites2[j].fn
+		}
+		return sites2[i].callPos < sites2[j].callPos
+	})
+	rows = nil
+	for _, st := range sites2 {
+		var steps []string
+		for _, sp := range st.steps {
+			steps = append(steps, Tuple(strList(sp.guard), Str(sp.outcome)))
+		}
+		s.Comment("%s:%d %s calls %s (%s)", st.file, st.line, st.fn, st.callee, st.form)
+		rows = append(rows, Tuple(Str(st.fn), Str(st.callee), Str(st.form), "["+strings.Join(steps, ", ")+"]"))
+	}
+	s.Comment("every call to a value / row reader (ReadValues, ReadRows, readRows) in the root package, same layout;\nextra atoms n==0 n!=0 n>0 over the count result")
+	s.Def("rowReaderCalls", "List (String × String × String × List (List String × String))", List(rows))
 	return nil
+}
+
+var prCallees = pageReaderCallees
+
+func newPrCtx(r *Repo, errVar, first, callee string) *prCtx {
+	if rowReaderCallees[callee] {
+		return &prCtx{r: r, errVar: errVar, countVar: first}
+	}
+	return &prCtx{r: r, errVar: errVar, pageVar: first}
 }
 
 func isReaderCall(e ast.Expr) (*ast.CallExpr, string) {
@@ -332,7 +399,10 @@ func isReaderCall(e ast.Expr) (*ast.CallExpr, string) {
 		return nil, ""
 	}
 	name := bareCallee(c)
-	if !pageReaderCallees[name] {
+	if !prCallees[name] {
+		return nil, ""
+	}
+	if _, ok := c.Fun.(*ast.SelectorExpr); !ok && rowReaderCallees[name] && name != "readRows" {
 		return nil, ""
 	}
 	// ReadPage / ReadDictionary are method calls (x.ReadPage()); a package-level function of the
@@ -408,7 +478,7 @@ func prSitesOf(r *Repo, file string, fn *ast.FuncDecl) []prSite {
 					if ev == "_" || ev == "" {
 						add(c, callee, "blank", nil)
 					} else {
-						ctx := &prCtx{r, ev, pv}
+						ctx := newPrCtx(r, ev, pv, callee)
 						add(c, callee, "assign", follow(ctx, nil, after, conts))
 					}
 				}
@@ -426,7 +496,7 @@ func prSitesOf(r *Repo, file string, fn *ast.FuncDecl) []prSite {
 					if ev == "_" || ev == "" {
 						add(c, callee, "blank", nil)
 					} else {
-						ctx := &prCtx{r, ev, pv}
+						ctx := newPrCtx(r, ev, pv, callee)
 						bare := &ast.IfStmt{If: x.If, Cond: x.Cond, Body: x.Body, Else: x.Else}
 						add(c, callee, "if-init", follow(ctx, []ast.Stmt{bare}, after, conts))
 					}
